@@ -2,7 +2,7 @@
 (R-SYM); a saved and loaded store carries every persistent field (R-FLOW); file headers agree
 between writer and reader (R-PAIR)."""
 from vlib import fixtures
-from rules import sym, flow, pair, sibling, tagkind
+from rules import sym, flow, pair, sibling, tagkind, capsrc, narrow
 from vlib.mir import Fn, op_local
 from vlib.run import Broken
 
@@ -12,7 +12,7 @@ DZ = "compression::dict_zip::blob_store::DictZipBlobStore::"
 
 def run(ctx):
     fx = ctx.facts("default")
-    fixtures.run(ctx, ['pair', 'batch', 'delegate', 'serde', 'record'])
+    fixtures.run(ctx, ['pair', 'batch', 'delegate', 'serde', 'record', 'capsrc', 'pairaccess'])
     # batch operations do to the store's state what the single-item operations do
     bfiles = sorted({fx.raw(f)['file'] for f in fx.fn_ids() if fx.raw(f)['file'].startswith('src/blob_store/') or fx.raw(f)['file'] == 'src/compression/dict_zip/blob_store.rs'})
     sibling.batch_effects(ctx, fx, bfiles)
@@ -30,6 +30,10 @@ def run(ctx):
     tagkind.record_sites(ctx, fx, dzput, "compression::dict_zip::blob_store::CompressedBlob", "compressed_data",
                          ["is_compressed", "entropy_algorithm"])
     ctx.floor('R-TAGKIND.record.sites', 2)
+    # bounded decompression in the stores (none on the pinned tree besides the async wrapper; the fixture keeps the rule alive)
+    capsrc.run(ctx, fx, bfiles + ['src/concurrency/async_blob_store.rs'])
+    # the offset index hands out (offsets[i], offsets[i+1]): the second is located from i + 1
+    narrow.pair_accessor(ctx, fx, "blob_store::sorted_uint_vec::SortedUintVec::get2")
     fl = sym.Flow(fx)
     nimpl = 0
     nwrap = 0
